@@ -17,6 +17,8 @@ EXPLANATION = (
     " Added in rounds 6 and 7: (O15.5) an empty file, a file that is no archive, an archive without content.xml"
     " and malformed XML end in DataFormatError before any row, whatever the reader finds out about the file"
     " beforehand; negative blank counts are refused."
+    " Added in rounds 8 and 9: Cell encodings with a comment (office:annotation) on a filled / an empty cell;"
+    " counts padded with non-XML white space are refused."
 )
 ASSUMPTIONS = ["ElementTree decodes encodings and XML specials; the abstract element model mirrors the ElementTree API subset used"]
 
